@@ -1,5 +1,5 @@
 //! Loop-free, exact re-implementation of fnv::FnvHasher (FNV-1a, 64 bit) for slices of at
-//! most 8 bytes -- all jammdb ever feeds it (`to_be_bytes()` of u32 / u64 fields).
+//! most 16 bytes -- jammdb feeds it 4- and 8-byte slices (`to_be_bytes()` of u32 / u64 fields).
 //!
 //! Why: the real crate iterates `for byte in bytes.iter()`; under Kani each byte costs
 //! ~600 symex steps (slice-iterator pointer checks), 37 k steps per header checksum, and a
@@ -76,7 +76,7 @@ impl Hasher for FnvHasher {
     }
     #[inline]
     fn write(&mut self, bytes: &[u8]) {
-        assert!(bytes.len() <= 8, "fnv model: slices longer than 8 bytes are outside the model");
+        assert!(bytes.len() <= 16, "fnv model: slices longer than 16 bytes are outside the model");
         step!(self, bytes, 0);
         step!(self, bytes, 1);
         step!(self, bytes, 2);
@@ -85,5 +85,13 @@ impl Hasher for FnvHasher {
         step!(self, bytes, 5);
         step!(self, bytes, 6);
         step!(self, bytes, 7);
+        step!(self, bytes, 8);
+        step!(self, bytes, 9);
+        step!(self, bytes, 10);
+        step!(self, bytes, 11);
+        step!(self, bytes, 12);
+        step!(self, bytes, 13);
+        step!(self, bytes, 14);
+        step!(self, bytes, 15);
     }
 }
